@@ -218,6 +218,9 @@ class ManifestContext:
     def create_all_live_periods(self,
                                 multi_period: models.MultiPeriodStream) -> None:
         duration = multi_period.total_duration()
+        if duration.total_seconds() <= 0:
+            # no Periods (or only empty ones): there is nothing to loop over
+            return
         timing_ref = StreamTimingReference(
             media_name=multi_period.name,
             media_duration=int(duration.total_seconds() * 1000),
